@@ -14,6 +14,7 @@ import re
 RET = ("return",)
 FLOW = os.environ.get("VERIF_FLOW", "1") == "1"
 ENTITY_ID = "<entity.id>"
+INFEASIBLE = ("infeasible",)    # origin of a place that cannot hold a value on the paths considered (e.g. Some-payload of a None)
 
 
 def const_bool(o):
@@ -476,6 +477,17 @@ class Body:
         return r
 
     def operand_origin(self, o, _depth=0, _seen=None, at=None):
+        if _depth == 0 and isinstance(o, dict):
+            # operands are persistent objects of the fact structure: memoise on identity
+            oc = self.__dict__.setdefault("_opc", {})
+            k = (id(o), at)
+            r = oc.get(k)
+            if r is None:
+                r = oc[k] = self._operand_origin(o, 0, _seen, at)
+            return r
+        return self._operand_origin(o, _depth, _seen, at)
+
+    def _operand_origin(self, o, _depth=0, _seen=None, at=None):
         p = op_place(o)
         if p is None:
             if isinstance(o, dict) and "const" in o:
@@ -546,7 +558,20 @@ class Body:
         return rc[key]
 
     def _origin(self, local, proj, depth, seen, at=None):
+        # memoised unless a cycle cut happened somewhere below (then the result depends on the path taken to get here)
+        mk = (local, tuple(e if isinstance(e, str) else tuple(sorted(e.items())) for e in proj), at)
+        memo = self.__dict__.setdefault("_omemo", {})
+        if mk in memo:
+            return memo[mk]
+        c0 = self.__dict__.get("_cuts", 0)
+        r = self._origin1(local, proj, depth, seen, at)
+        if self.__dict__.get("_cuts", 0) == c0:
+            memo[mk] = r
+        return r
+
+    def _origin1(self, local, proj, depth, seen, at=None):
         if depth > 40:
+            self._cuts = self.__dict__.get("_cuts", 0) + 1
             return ("unknown", "depth")
         pn = projnames(proj)
         D = self.defs().get(local, [])
@@ -579,6 +604,7 @@ class Body:
             rest_raw = self._strip_prefix(proj, len(dp))
             k = (local, bb, idx)
             if k in seen:
+                self._cuts = self.__dict__.get("_cuts", 0) + 1
                 continue
             seen2 = seen | {k}
             at2 = None if at is None else ((bb, idx) if idx >= 0 else self.end(bb))
@@ -611,7 +637,8 @@ class Body:
             elif rk == "aggregate":
                 rn = projnames(rest_raw)
                 if rn and rn[0].startswith("as ") and rv.get("variant") and rn[0] != "as " + rv["variant"]:
-                    continue    # the payload of variant A read from a value built as variant B: not a feasible definition
+                    res.append(INFEASIBLE)   # the payload of variant A read from a value built as variant B: not a feasible definition
+                    continue
                 if rn:
                     # select the operand: for ADT aggregates by field name, tuples/closures by position
                     sel = self._agg_select(rv, rest_raw)
@@ -634,6 +661,9 @@ class Body:
             else:
                 res.append(("unknown", rk))
         res = [r for r in res if r is not None]
+        if res and all(r == INFEASIBLE for r in res):
+            return INFEASIBLE
+        res = [r for r in res if r != INFEASIBLE]
         uniq = sorted(set(res), key=repr)
         if len(uniq) == 1:
             return uniq[0]
@@ -720,14 +750,12 @@ class Body:
                 out |= self.roots(ao, _seen, _depth + 1)
             # mutation of this value through &mut in other calls
             base = ("call", org[1], ())
-            for bb, t2 in self.calls():
+            for bb, aos, muts in self._mut_users().get(base, ()):
                 if bb == org[1]:
                     continue
-                aos = [self.operand_origin(a) for a in t2["args"]]
-                if base in aos and t2["args"] and str(t2["args"][aos.index(base)].get("ty", "")).startswith("&mut"):
-                    for ao in aos:
-                        if ao != base:
-                            out |= self.roots(ao, _seen, _depth + 1)
+                for ao in aos:
+                    if ao != base:
+                        out |= self.roots(ao, _seen, _depth + 1)
         elif k == "agg":
             rv = self.blocks[org[1]]["stmts"][org[2]]["rv"]
             for o in rv.get("ops", []):
@@ -741,6 +769,21 @@ class Body:
             for o in org[2]:
                 out |= self.roots(o, _seen, _depth + 1)
         return out
+
+    def _mut_users(self):
+        """call result origin -> [(bb, origins of all arguments, ..)] of the calls that take that result by `&mut`"""
+        mu = self.__dict__.get("_mu")
+        if mu is None:
+            mu = collections.defaultdict(list)
+            for bb, t2 in self.calls():
+                if not t2["args"]:
+                    continue
+                aos = [self.operand_origin(a) for a in t2["args"]]
+                for i, ao in enumerate(aos):
+                    if ao[0] == "call" and not ao[2] and isinstance(t2["args"][i], dict) and str(t2["args"][i].get("ty", "")).startswith("&mut"):
+                        mu[ao].append((bb, aos, i))
+            self._mu = mu
+        return mu
 
     TRANSPARENT = {"std::ops::Deref::deref", "std::ops::DerefMut::deref_mut", "std::borrow::Borrow::borrow",
                    "std::borrow::BorrowMut::borrow_mut", "std::convert::AsRef::as_ref", "std::convert::AsMut::as_mut"}
@@ -756,9 +799,13 @@ class Body:
 
     def deps(self, org):
         """every origin the value depends on (transitive; includes intermediate call results with their projections)"""
-        seen = set()
-        self.roots(org, seen)
-        return seen
+        dc = self.__dict__.setdefault("_depc", {})
+        r = dc.get(org)
+        if r is None:
+            seen = set()
+            self.roots(org, seen)
+            r = dc[org] = frozenset(seen)
+        return r
 
     def depends_on_call(self, org, bb, proj_prefix=()):
         return any(d[0] == "call" and d[1] == bb and d[2][:len(proj_prefix)] == tuple(proj_prefix) for d in self.deps(org))
@@ -860,6 +907,16 @@ class Body:
                 return False, "the loop can be left after the increment of the current iteration (towards bb%d): the count is then one too high" % hit[0]
         return True, ""
 
+    def receiver_root(self, org, limit=10):
+        """what an iterator / view was made from: follow the receiver (argument 0) of the calls that produced it
+        (`x.iter().map(f).enumerate()` -> x)"""
+        for _ in range(limit):
+            if org[0] == "call" and self.term(org[1])["args"]:
+                org = self.arg_origin(org[1], 0)
+            else:
+                break
+        return org
+
     def ret_origins(self, *fields):
         """origins of the returned value (or of component `fields` of it, by tuple/struct position) at each normal return"""
         proj = [{"field": str(f), "idx": f, "of": ""} for f in fields]
@@ -955,11 +1012,45 @@ class Body:
         return {}
 
     def place_ty_guess(self, place):
-        """type of a place when it is a bare local (or deref of one); None otherwise"""
-        pn = projnames(place["proj"])
-        if not pn:
-            return strip_ref(self.ltype[place["local"]])
-        return None
+        """type of a place, following tuple / struct fields, derefs and Option / Result payloads as far as the type strings allow"""
+        ty = self.ltype.get(place["local"])
+        variant = None
+        for e in place["proj"]:
+            if ty is None:
+                return None
+            if e == "deref":
+                ty = strip_ref(ty)
+                if ty.startswith(("std::boxed::Box<", "alloc::boxed::Box<")):
+                    ga = generic_args(ty)
+                    ty = ga[0] if ga else None
+                continue
+            if isinstance(e, dict) and "downcast" in e:
+                variant = e["downcast"]
+                continue
+            if isinstance(e, dict) and "field" in e:
+                idx = e.get("idx")
+                t = strip_ref(ty).strip()
+                if t.startswith("(") and t.endswith(")"):
+                    parts = generic_args("X<" + t[1:-1] + ">")
+                    ty = parts[idx] if idx is not None and idx < len(parts) else None
+                else:
+                    bt = base_ty(t)
+                    ga = generic_args(t)
+                    if bt.endswith("option::Option") and variant == "Some" and ga:
+                        ty = ga[0]
+                    elif bt.endswith("result::Result") and variant in ("Ok", "Err") and len(ga) >= 2:
+                        ty = ga[0] if variant == "Ok" else ga[1]
+                    else:
+                        adt = self.facts.adt(bt)
+                        ty = None
+                        if adt:
+                            vs = [v for v in adt["variants"] if variant is None or v["name"] == variant] or adt["variants"]
+                            if idx is not None and idx < len(vs[0]["fields"]):
+                                ty = vs[0]["fields"][idx]["ty"]
+                variant = None
+                continue
+            return None
+        return strip_ref(ty) if ty is not None else None
 
 
 class Facts:
